@@ -47,6 +47,7 @@ Definition thin (t : triangle) (k : nat) (ndxs : list nat) : result triangle :=
 (* ------------------------------------------------------------------ bootstrap.py: age-to-age skeleton *)
 Section Develop.
   Variable mul : value -> cell -> str -> value.       (* v * resampled_atas[cell.dev_lag()][field][period_idx] *)
+  Variable sel : str -> bool.                         (* the field is one of the resampled fields *)
   Definition truthy (o : option value) : bool :=
     match o with Some (VNum x) => negb (num_n x =? 0)%Z | Some (VArr _ (_ :: _)) => true | _ => false end.
   (* the earliest development cell of a period: no cell of the same period is evaluated earlier *)
@@ -56,7 +57,7 @@ Section Develop.
   Definition develop_vals (c : cell) (carried : list (str * value)) : list (str * value) :=
     dict_union (cvals c)
                (map (fun kv => (fst kv, if truthy (assoc (fst kv) (cvals c)) then mul (snd kv) c (fst kv) else VNone))
-                    carried).
+                    (filter (fun kv => sel (fst kv)) carried)).
   Fixpoint develop_go (t : triangle) (carried : list (str * value)) (cells : list cell) : list cell :=
     match cells with
     | [] => []
@@ -73,8 +74,9 @@ Definition with_detail (i : Z) (c : cell) : cell :=
                      (per_occurrence_limit m) (dict_set BOOTSTRAP (MNum (num_of_int i)) (details m))
                      (loss_details m)).
 (* replicate i of a triangle given as its slices (each slice developed with its own factors) *)
-Definition replicate (muls : list (value -> cell -> str -> value)) (i : Z) (slices : list triangle) : triangle :=
-  flat_map (fun ms => map (with_detail i) (develop (fst ms) (snd ms))) (combine muls slices).
+Definition replicate (sel : str -> bool) (muls : list (value -> cell -> str -> value)) (i : Z)
+           (slices : list triangle) : triangle :=
+  flat_map (fun ms => map (with_detail i) (develop (fst ms) sel (snd ms))) (combine muls slices).
 
 (* ------------------------------------------------------------------ re-imposing a rank order *)
 (* maximum_entropy_ensemble:  replicate = [q for _, q in sorted(zip(indices, sorted(quantiles)))]
